@@ -251,6 +251,38 @@ fn junk_block(r: &mut Rng) -> Vec<u8> {
         let p = r.below(n - 3);
         b[p..p + 4].copy_from_slice(b"DDLT");
     }
+    if n >= 4 && r.chance(1, 3) {
+        // a near miss of the pattern: one byte off by one, two bytes swapped, or two neighbouring
+        // bytes changed by (-1, +B) / (+1, -B) — what collides with the pattern under a polynomial
+        // fingerprint of base B, a checksum, or a comparison that skips a byte
+        let mut w = *b"DLT\x01";
+        match r.below(4) {
+            0 => {
+                let i = r.below(4);
+                w[i] = if r.bool() { w[i].wrapping_add(1) } else { w[i].wrapping_sub(1) };
+            }
+            1 => {
+                let i = r.below(3);
+                w.swap(i, i + 1);
+            }
+            2 => {
+                let i = r.below(4);
+                w[i] ^= 0x20; // case
+            }
+            _ => {
+                let i = r.below(3);
+                let base = *r.pick(&[31i32, 33, 37, 65, 127, 131, 2, 16, 255]);
+                let sign = if r.bool() { 1 } else { -1 };
+                let (x, y) = (w[i] as i32 - sign, w[i + 1] as i32 + sign * base);
+                if (0..256).contains(&x) && (0..256).contains(&y) {
+                    w[i] = x as u8;
+                    w[i + 1] = y as u8;
+                }
+            }
+        }
+        let p = r.below(n - 3);
+        b[p..p + 4].copy_from_slice(&w);
+    }
     // bias the end towards a partial pattern
     match r.below(6) {
         0 if n >= 1 => b[n - 1] = b'D',
